@@ -571,3 +571,20 @@ example :
       = some true := by decide
 
 end Woodpile.Props.C13
+
+namespace Woodpile.Props.C13
+open Woodpile.Abt
+
+/-- The argument pair `(ub, uv)` of a call is fixed when the call starts: no step of any of the
+three programs changes it, whatever result is fed (so the pair appended by the sequence store,
+`*_hist_is_accepted_updates`, is the pair the call was given). -/
+theorem call_arguments_fixed (chk : Nat → Nat → Bool) (th : Local) :
+    (∀ val, (th.feedLoad chk val).ub = th.ub ∧ (th.feedLoad chk val).uv = th.uv) ∧
+    (∀ r, (th.feedLock r).ub = th.ub ∧ (th.feedLock r).uv = th.uv) ∧
+    (th.feedUnit.ub = th.ub ∧ th.feedUnit.uv = th.uv) ∧
+    (∀ b v, (th.start (.update b v)).ub = b ∧ (th.start (.update b v)).uv = v ∧
+      (th.start (.tryUpdate b v)).ub = b ∧ (th.start (.tryUpdate b v)).uv = v) :=
+  ⟨fun val => RA.feedLoad_args chk th val, fun r => RA.feedLock_args th r, RA.feedUnit_args th,
+   fun _ _ => ⟨rfl, rfl, rfl, rfl⟩⟩
+
+end Woodpile.Props.C13
